@@ -547,6 +547,7 @@ func fatalInCodeUnderTest(stderr string) (what, where string) {
 // ---------------------------------------------------------------- worker
 
 func worker(args []string) {
+	wstart := time.Now()
 	id, tier := args[0], args[1]
 	shard, _ := strconv.Atoi(args[2])
 	of, _ := strconv.Atoi(args[3])
@@ -576,6 +577,8 @@ func worker(args []string) {
 			p.Run(c)
 		}()
 	}
+	c.R.Counters["max_worker_wall_s"] = int64(time.Since(wstart).Seconds())
+	c.R.Counters[fmt.Sprintf("max_worker%02d_wall_s", shard)] = int64(time.Since(wstart).Seconds())
 	b, _ := json.Marshal(c.R)
 	os.WriteFile(filepath.Join(dir, "result.json"), b, 0644)
 }
